@@ -66,7 +66,6 @@ func abiSkipLiteral(f *ast.File, fn string) string {
 
 func readFile(path string) ([]byte, error) { return os.ReadFile(path) }
 
-
 // desugarSwitch rewrites a `switch` without init, fallthrough, break or type switch into the
 // equivalent chain of `if` statements: `switch tag { case a, b: A; default: D }` becomes
 // `if tag == a || tag == b { A } else { D }`; a tagless switch uses the case expressions themselves.
